@@ -51,6 +51,8 @@ EvStr ==
   /\ Trace[l].ev = "str"
   /\ LET e == Trace[l] IN
      verdicts' = verdicts \cup If(e.outcome \in {"panic", "hang"}, {<<l, e.case, e.g \o ":" \o e.s, "total", e.outcome, "-">>})
+                          \* a curated inconsistent record read as values
+                          \cup If(e.g = "gbtext-err" /\ e.outcome = "values", {<<l, e.case, e.g \o ":" \o e.s, "strict", "inconsistent-record", "-">>})
 
 Consume == l <= N /\ (EvScan \/ EvStr) /\ l' = l + 1
 Finish ==
